@@ -76,7 +76,9 @@ let typed_field_unused (r : result) : string =
   " l=" ^ String.concat "," (List.map (fun v -> read_long (String.concat "" (List.map (fun b -> String.make 1 (Char.chr (int_of_byte b))) v))) vals)
 let typed_field (r : result) : string =
   let vals = List.filter_map (fun (_, v) -> v) r.r_opts in
-  if vals = [] then " l=." else " l=" ^ String.concat "," (List.map typed_value vals)
+  let mvals = List.concat_map snd r.r_multis in
+  (if vals = [] then " l=." else " l=" ^ String.concat "," (List.map typed_value vals))
+  ^ (if mvals = [] then " L=." else " L=" ^ String.concat "," (List.map typed_value mvals))
 
 let model = function
   | (("parse" | "parsel" | "hist") as kind) :: dw :: ew :: argvs when argvs <> [] ->
